@@ -152,6 +152,17 @@ class Evaluator:
         f = self.expr(e.func, env)
         args = tuple(self.expr(a, env) for a in e.args)
         kw = tuple((k.arg, self.expr(k.value, env)) for k in e.keywords)
+        # f(**dict(a=x, b=y)) / f(**{"a": x}) passes the keywords a=x, b=y
+        if any(k is None for k, _ in kw):
+            flat = []
+            for k, v in kw:
+                if k is None and T.is_call_to(v, "builtins.dict") and not v[2] and all(kk for kk, _ in v[3]):
+                    flat.extend(v[3])
+                elif k is None and v[0] == "dict" and v[1] and all(kv[0] is not None and kv[0][0] == "const" and isinstance(kv[0][1], str) for kv in v[1]):
+                    flat.extend((kv[0][1], kv[1]) for kv in v[1])
+                else:
+                    flat.append((k, v))
+            kw = tuple(flat)
         # typing.cast(T, x) is the identity on values
         if f == ("ref", "typing.cast") and len(args) == 2:
             return args[1]
